@@ -301,19 +301,29 @@ struct CliWorld : World {
         return r;
     }
 
-    // Reference check of an asconcrypt container through the library (same KDF wrapper as the tool).
-    static bool container_valid(const Bytes &f, const std::string &pw, const Bytes &plain)
+    // Is `f` an encryption of `plain` under `pw`?  Decided by the property's own words - "asconcrypt decrypts what
+    // it encrypted back to the identical file" - i.e. by a fault-free run of the tool's real decryption in a
+    // fresh simulated process, not by knowledge of the container format or of the KDF parameters.
+    static bool container_valid(Ctx &c, const Bytes &f, const std::string &pw, const Bytes &plain)
     {
-        if (f.size() != plain.size() + 96) return false;
-        if (memcmp(f.data(), "ASCONcrypt\0\1", 12) != 0) return false;
-        unsigned char kn[36];
-        __wrap_ascon_pbkdf2(kn, sizeof kn, (const unsigned char *)pw.data(), pw.size(), f.data() + 12, 16, 8192);
-        unsigned char kb[36];
-        size_t ml = 0;
-        if (ascon80pq_siv_decrypt(kb, &ml, f.data() + 28, 52, f.data(), 28, kn + 20, kn) != 0) return false;
-        Bytes m(plain.size() + 1);
-        if (ascon80pq_aead_decrypt(m.data(), &ml, f.data() + 80, f.size() - 80, f.data() + 28, 52, kb + 20, kb) != 0) return false;
-        return ml == plain.size() && (ml == 0 || memcmp(m.data(), plain.data(), ml) == 0);
+        if (pw.size() >= 1024) return false;
+        // save the observations of the invocation being judged
+        vfs_put("verify.ascon", f.data(), f.size());
+        vfs_remove("verify.out");
+        int chunk = c.chunk, eintr = c.eintr;
+        c.chunk = 0;
+        c.eintr = 0;
+        std::map<std::string, uint64_t> faults = c.run->faults;
+        Result r = run_tool(c, 0, {"asconcrypt", "-d", "-p", pw, "-o", "verify.out", "verify.ascon"}, nullptr, 0, -1, 0);
+        c.run->faults = faults; // the verification run injects nothing and must not show up in the fault counts
+        c.chunk = chunk;
+        c.eintr = eintr;
+        bool ex;
+        Bytes back = vfs_get("verify.out", &ex);
+        vfs_remove("verify.ascon");
+        vfs_remove("verify.out");
+        c.run->probe("verify.decrypt_runs");
+        return r.exit_code == 0 && ex && back == plain;
     }
 
     static bool transient_fired(const Result &r) { return r.fired[FK_EINTR] || r.fired[FK_EAGAIN] || r.fired[FK_SHORT]; }
@@ -399,7 +409,7 @@ struct CliWorld : World {
             c.run->probe("enc.writer_crashed");
             if (out_exists) {
                 // a writer killed after its very last byte leaves a complete, valid container behind
-                bool complete = pw_ok && container_valid(produced, pw, plain);
+                bool complete = pw_ok && container_valid(c, produced, pw, plain);
                 Meta m;
                 m.kind = complete ? 1 : 2;
                 m.exact = produced;
@@ -416,7 +426,7 @@ struct CliWorld : World {
             return;
         }
         if (r.exit_code == 0) {
-            if ((!use_stdio && !out_exists) || !container_valid(produced, pw, plain)) {
+            if ((!use_stdio && !out_exists) || !container_valid(c, produced, pw, plain)) {
                 viol(c, "exit_zero_with_bad_output", site, fmt("input %zu bytes, output %s %zu bytes is not a valid encryption of the input; %s", plain.size(), out_exists || use_stdio ? "of" : "missing,", produced.size(), fault_summary(r).c_str()));
                 if (out_exists) { Meta m; m.kind = 2; m.exact = produced; c.meta[out] = m; }
                 return;
